@@ -582,7 +582,7 @@ def entry_tpcn(ck, np, mcmc, modes_mod, modes, M, res, limit):
     """KernelTpcn behaviours through the public entry point tempest.mcmc.parallel_mcmc(sample="tpcn"): three walkers per
     call, gamma / randn / rand scripted, initial step size pinned to 3/5 on the class for the call.  Two variants:
     accept (r = 0: the successor is the folded proposal, the whole record moves) and reject (the likelihood is -inf
-    away from the current points: the successor is the current record).  -> counters"""
+    at every proposal: the successor is the current record).  -> counters"""
     h = 1.0 / (2 * M)
     groups = {}
     for st in iter_states(res.dump_path, ("done",)):
@@ -604,16 +604,17 @@ def entry_tpcn(ck, np, mcmc, modes_mod, modes, M, res, limit):
             n = len(chunk)
             variant = "accept" if (i // 3) % 2 == 0 else "reject"
             U = np.array([[c * h for c in s["c"]] for s in chunk])
-            cur = {tuple(r) for r in U.tolist()}
+            inside_sweep = {"on": False}
 
-            def lik(xb, _v=variant, _cur=cur):
+            def lik(xb, _v=variant):
                 xb = np.asarray(xb, dtype=float)
                 out = -xb.sum(axis=1)
-                if _v == "reject":
-                    out = np.array([o if tuple(r) in _cur else -np.inf for o, r in zip(out, xb.tolist())])
+                if _v == "reject" and inside_sweep["on"]:
+                    out = np.full(len(xb), -np.inf)   # zero likelihood at every proposal: alpha = 0, nothing moves
                 return out, 2.0 * xb + 1.0
 
             l0, b0 = lik(U)
+            inside_sweep["on"] = True
             gq = [4.0 / (s["sq2"] * s["sq2"]) for s in chunk]
             zq = [np.array(s["zs"][0], dtype=float) for s in chunk]
             pos = {"g": 0, "z": 0, "r": 0}
@@ -645,6 +646,7 @@ def entry_tpcn(ck, np, mcmc, modes_mod, modes, M, res, limit):
                 bad = "the code drew more innovations than the specification's behaviour"
             finally:
                 np.random.gamma, np.random.randn, np.random.rand, mcmc.TPCNRunner._initialize_sigmas = o
+                inside_sweep["on"] = False
             cnt["sweeps"] += 1
             cnt["walkers"] += n
             if any(list(s["prop"]) != list(s["fol"]) for s in chunk):
